@@ -123,8 +123,9 @@ fn roundtrip(rng: &mut Rng, ctx: &mut Ctx) {
             }
         }
         Some(v) => {
-            if v.as_bytes().contains(&b'=') {
-                ctx.violation("details-padded", "grpc-status-details-bin is padded on the wire".into());
+            // padded or not is the sender's choice (a receiver must take both)
+            if !b64_is_wellformed(v.as_bytes()) {
+                ctx.violation("details-wire", "grpc-status-details-bin is not well-formed base64".into());
             }
             if b64_decode(v.as_bytes()).as_deref() != Some(&details[..]) {
                 ctx.violation("details-wire", "independent base64 decoding of the details header does not give the details".into());
